@@ -34,11 +34,13 @@ pub(crate) fn scan_dimen<S: TexlangState>(
                     // saturating: -2^31 (reachable through \advance) has no absolute value
                     (negative * i.signum(), i.saturating_abs(), Scaled::ZERO)
                 }
+                // TeX.2021.448 (attach_sign): an internal dimension can be out of range
+                // because \advance wraps silently.
                 InternalNumber::Dimen(d) => {
-                    return Ok(d * negative);
+                    return Ok(check_range(input, first_token, d)? * negative);
                 }
                 InternalNumber::Glue(g) => {
-                    return Ok(g.width * negative);
+                    return Ok(check_range(input, first_token, g.width)? * negative);
                 }
             }
         }
@@ -178,6 +180,17 @@ pub(crate) fn scan_and_apply_units<S: TexlangState>(
         Ok(s) => Ok(s),
         Err(_) => handle_overflow(input, first_token, false),
     }
+}
+
+fn check_range<S: TexlangState>(
+    input: &mut vm::ExpandedStream<S>,
+    first_token: token::Token,
+    d: common::Scaled,
+) -> txl::Result<common::Scaled> {
+    if d < -common::Scaled::MAX_DIMEN || d > common::Scaled::MAX_DIMEN {
+        return handle_overflow(input, first_token, false);
+    }
+    Ok(d)
 }
 
 fn handle_overflow<S: TexlangState>(
